@@ -93,6 +93,16 @@ func (w *World) HasHTTP(address string) bool {
 
 type Transport struct{}
 
+// BlackHoleTimeout: how long a client without its own timeout waits on a
+// black-holed HTTP exchange before the (simulated) kernel reports a timeout.
+var BlackHoleTimeout = 120 * time.Second
+
+type inflightHTTP struct {
+	node *Node
+	res  chan httpResult
+	addr string
+}
+
 type httpResult struct {
 	resp *http.Response
 	err  error
@@ -135,11 +145,23 @@ func (Transport) RoundTrip(req *http.Request) (*http.Response, error) {
 		res <- httpResult{nil, fmt.Errorf("dial tcp %s: connect: connection refused", address)}
 	}
 	lat1 := w.latency(key+":req", len(body))
+	// A black-holed exchange does not hang forever in reality: the kernel gives
+	// up on the connection (SYN retries ~127s; established ~15min). Model the
+	// short end: after BlackHoleTimeout the client sees a timeout error (unless
+	// its own, shorter, timeout fired first).
+	blackhole := func() {
+		w.After(BlackHoleTimeout, key+":kernel-timeout", func() {
+			select {
+			case res <- httpResult{nil, fmt.Errorf("read tcp %s: read: connection timed out", address)}:
+			default:
+			}
+		})
+	}
 	switch verdict {
 	case HTTPRefuse:
 		w.After(lat1, key+":refused", refuse)
 	case HTTPDropReq:
-		// nothing: the client's own timeout fires
+		blackhole()
 	default:
 		w.After(lat1, key+":req", func() {
 			w.mu.Lock()
@@ -152,8 +174,16 @@ func (Transport) RoundTrip(req *http.Request) (*http.Response, error) {
 				return
 			}
 			if down {
-				return // black hole
+				blackhole()
+				return
 			}
+			// the exchange is now "on" the server: if that process dies the client sees a reset
+			w.mu.Lock()
+			if w.inflight == nil {
+				w.inflight = map[string]*inflightHTTP{}
+			}
+			w.inflight[key] = &inflightHTTP{node: srv.node, res: res, addr: address}
+			w.mu.Unlock()
 			hreq := httptest.NewRequest(req.Method, req.URL.String(), bytes.NewReader(body))
 			hreq.Header = req.Header.Clone()
 			hreq.RemoteAddr = fromName + ":0"
@@ -182,6 +212,7 @@ func (Transport) RoundTrip(req *http.Request) (*http.Response, error) {
 				}()
 				if verdict == HTTPDropResp {
 					w.trace("http %s resp dropped", key)
+					blackhole()
 					return
 				}
 				w.After(w.latency(key+":resp", rec.Body.Len()), key+":resp", func() {
@@ -189,6 +220,7 @@ func (Transport) RoundTrip(req *http.Request) (*http.Response, error) {
 					down := w.linkDown[lkey(from, srv.node)]
 					w.mu.Unlock()
 					if down {
+						blackhole()
 						return
 					}
 					if panicked {
@@ -202,6 +234,11 @@ func (Transport) RoundTrip(req *http.Request) (*http.Response, error) {
 			})
 		})
 	}
+	defer func() {
+		w.mu.Lock()
+		delete(w.inflight, key)
+		w.mu.Unlock()
+	}()
 	select {
 	case r := <-res:
 		status := 0
